@@ -86,8 +86,11 @@ def fintlist(alist):
         # we have a string (comma-separated integers)
         alist = alist.strip().strip("[] ").split(",")
     for it in alist:
-        if it:
-            outlist.append(fint(it))
+        if isinstance(it, str) and not it.strip():
+            # ignore empty strings (e.g. from "[]" or "1, 2,")
+            continue
+        # (note that the integer `0` is a valid list item)
+        outlist.append(fint(it))
     return outlist
 
 
